@@ -61,7 +61,17 @@ class C16Geometry1D(Harness):
         return {"dens": _tolist(h.densities), "sizes": _tolist(h.bin_sizes), "widths": _tolist(h.bin_widths), "centers": _tolist(h.bin_centers),
                 "left": _tolist(h.bin_left_edges), "right": _tolist(h.bin_right_edges), "min_edge": h.min_edge, "max_edge": h.max_edge,
                 "total_width": h.total_width, "cum": _tolist(h.cumulative_frequencies), "total": h.total, "bins": _tolist(h.bins),
-                "errors": None, "edges_view": self._edges_view(E, h), "slice_edges": self._slice_after_read(E, h, p["M"])}
+                "errors": None, "edges_view": self._edges_view(E, h), "slice_edges": self._slice_after_read(E, h, p["M"]), "merged": self._merged(E, h, p)}
+
+    @staticmethod
+    def _merged(E, h, p):
+        """Geometry after merging all bins into one (M >= 2): the merged bin's size, or a refusal when the bins have a gap."""
+        if p["M"] < 2:
+            return None
+        m = E.attempt(h.merge_bins, p["M"])
+        if isinstance(m, Raised):
+            return {"raised": m}
+        return {"sizes": _tolist(m.bin_sizes), "total_width": m.total_width, "bins": _tolist(m.bins)}
 
     @staticmethod
     def _edges_view(E, h):
@@ -93,6 +103,13 @@ class C16Geometry1D(Harness):
             yield f"center[{j}]", cx.eq(obs["centers"][j], (L[j] + R[j]) / 2)
             yield f"density[{j}]", cx.quot_eq(obs["dens"][j], f[j], obs["sizes"][j])
             yield f"cumulative[{j}]", cx.eq(obs["cum"][j], zsum(f[: j + 1]))
+        mg = obs["merged"]
+        if mg is not None:
+            if p["gap"]:
+                # sizes are additive: a merged bin cannot swallow the gap (the merge is refused)
+                yield "merge_across_gap_refused", "raised" in mg
+            else:
+                yield "merged_size_is_sum", "raised" not in mg and len(mg["sizes"]) == 1 and z3.And(cx.eq(mg["sizes"][0], R[-1] - L[0]), cx.eq(mg["total_width"], R[-1] - L[0]))
         ev = obs["edges_view"]
         if p["gap"]:
             # numpy-style edges cannot describe bins with a gap: refused, never a list that swallows the gap
